@@ -24,6 +24,7 @@ type Case struct {
 	BoundsLayout int
 	NilMask      uint64
 	TokMask      uint64
+	AnyMask      uint64
 	RecoverLA    bool
 	PtrDiscard   bool
 	LoxText      string // filled in
@@ -68,7 +69,7 @@ func Run(cases []*Case, fast bool) ([]*Out, error) {
 	forge.FastLoader(fast)
 	for _, c := range cases {
 		c.LoxText = c.G.Lox()
-		c.GoText = pgo.UserGo(c.G, pgo.Opts{OnBounds: c.OnBounds, NamedSlices: c.NamedSlices, BoundsLayout: c.BoundsLayout, NilMask: c.NilMask, TokMask: c.TokMask, RecoverLA: c.RecoverLA, PtrDiscard: c.PtrDiscard})
+		c.GoText = pgo.UserGo(c.G, pgo.Opts{OnBounds: c.OnBounds, NamedSlices: c.NamedSlices, BoundsLayout: c.BoundsLayout, NilMask: c.NilMask, TokMask: c.TokMask, AnyMask: c.AnyMask, RecoverLA: c.RecoverLA, PtrDiscard: c.PtrDiscard})
 		files := c.G.LoxFiles()
 		files["user.go"] = c.GoText
 		if _, err := b.Add(files); err != nil {
